@@ -115,21 +115,21 @@ func sceneGenesis(o ReqOpts) {
 		b, _ := k.GetServiceBinding(ctx, Svc, s.Provs[i])
 		chk("C03 C04 C14 C19", vf.All(b.Deposit.AmountOf(Denom).Equal(s.Binds[i].Deposit), b.Available == s.Binds[i].Available, b.DisabledTime.Equal(s.Binds[i].DisabledTime)), "zero-height-preparation-leaves-bindings-alone")
 	}
-	chk("C19", vf.Balance(s.Consumer).Sub(s.BalC0).Equal(refund), "pending-fees-returned-to-consumer")
-	chk("C19", vf.Balance(c2).Sub(balC2).Equal(fee2), "pending-fee-of-every-context-returned")
+	chk("C19 C02", vf.Balance(s.Consumer).Sub(s.BalC0).Equal(refund), "pending-fees-returned-to-consumer")
+	chk("C19 C02", vf.Balance(c2).Sub(balC2).Equal(fee2), "pending-fee-of-every-context-returned")
 	chk("C19 C01", esc0.Sub(vf.ModuleBalance(types.RequestAccName)).Equal(refund.Add(earned).Add(fee2)), "escrow-emptied-of-all-obligations")
 	rc, found := k.GetRequestContext(ctx, id)
 	chk("C19", vf.All(found, rc.State == types.PAUSED, rc.BatchState == types.BATCHCOMPLETED, rc.BatchRequestCount == 0, rc.BatchResponseCount == 0), "contexts-paused-with-no-batch-in-flight")
 
 	// what a context is (service, consumer, input, modes, owning module, providers, counter) is not touched by the reset
 	y0, fy0 := k.GetRequestContext(ctx, id2)
-	chk("C09 C19", vf.All(found, fy0, immutableCtx(s.Pre, rc), immutableCtx(rc2pre, y0), sameAddrs(rc.Providers, s.Pre.Providers), sameAddrs(y0.Providers, rc2pre.Providers),
+	chk("C09 C19 C10", vf.All(found, fy0, immutableCtx(s.Pre, rc), immutableCtx(rc2pre, y0), sameAddrs(rc.Providers, s.Pre.Providers), sameAddrs(y0.Providers, rc2pre.Providers),
 		rc.BatchCounter == s.Pre.BatchCounter, y0.BatchCounter == rc2pre.BatchCounter, sameCoins(rc.ServiceFeeCap, s.Pre.ServiceFeeCap), sameCoins(y0.ServiceFeeCap, rc2pre.ServiceFeeCap)), "zero-height-preparation-keeps-what-a-context-is")
 
 	gs := service.ExportGenesis(ctx, k)
 	chk("C19", types.ValidateGenesis(*gs) == nil, "exported-genesis-validates")
-	chk("C19 C17", sameParams(gs.Params, vf.Params(ctx)), "export-carries-the-stored-parameters")
-	chk("C19", vf.All(len(gs.Definitions) == 2, len(gs.Bindings) == s.N+1, len(gs.RequestContexts) == 2), "export-lists-all-records")
+	chk("C19 C17 C04 C02 C03", sameParams(gs.Params, vf.Params(ctx)), "export-carries-the-stored-parameters")
+	chk("C19 C03 C15", vf.All(len(gs.Definitions) == 2, len(gs.Bindings) == s.N+1, len(gs.RequestContexts) == 2), "export-lists-all-records")
 	nWA := 0
 	if hasWA {
 		nWA = 1
@@ -173,7 +173,7 @@ func sceneGenesis(o ReqOpts) {
 		chk("C19 C15", p.Price.AmountOf(Denom).Equal(s.Binds[i].Pricing.Price.AmountOf(Denom)), "pricing-rebuilt-on-import")
 		own, ok := k2.GetOwner(ctx2, s.Provs[i])
 		chk("C19 C15 C05", vf.And(ok, own.Equals(s.Owner)), "ownership-rebuilt-on-import")
-		chk("C19 C15", vf.And(vf.Store(ctx2).Has(types.GetOwnerServiceBindingKey(s.Owner, Svc, s.Provs[i])), vf.Store(ctx2).Has(types.GetOwnerProviderKey(s.Owner, s.Provs[i]))), "owner-indexes-rebuilt-on-import")
+		chk("C19 C15 C01 C13 C18", vf.All(vf.Store(ctx2).Has(types.GetOwnerServiceBindingKey(s.Owner, Svc, s.Provs[i])), vf.Store(ctx2).Has(types.GetOwnerProviderKey(s.Owner, s.Provs[i])), !vf.Store(ctx2).Has(types.GetOwnerProviderKey(s.Provs[i], s.Owner))), "owner-indexes-rebuilt-on-import")
 	}
 }
 
